@@ -201,6 +201,7 @@ func closeWhileCallbackTells(c *ctxT) {
 
 func closeStacks(c *ctxT) {
 	closeWhileCallbackTells(c)
+	closePendingDelivery(c)
 	for _, mk := range closeStackKinds() {
 		for rep := 0; rep < c.scale(2, 12); rep++ {
 			runtime.GC()
@@ -368,4 +369,36 @@ type errCloseSwarm struct {
 func (e errCloseSwarm) Close() error {
 	e.DynSecureAskSwarm.Close()
 	return errors.New("transport close failed")
+}
+
+// closePendingDelivery: a message has arrived at a p2pkeswarm over an in-memory transport but
+// nobody is in Receive, so one of its workers is blocked handing it up; Close must still return.
+func closePendingDelivery(c *ctxT) {
+	for rep := 0; rep < c.scale(3, 20); rep++ {
+		realm := memswarm.NewRealm()
+		a := p2pkeswarm.New[memswarm.Addr](realm.NewSwarm(), testKey(511))
+		b := p2pkeswarm.New[memswarm.Addr](realm.NewSwarm(), testKey(512))
+		lg := &evlog{}
+		ctx, cf := context.WithTimeout(context.Background(), 2*time.Second)
+		for i := 0; i < 1+c.rng.Intn(3); i++ {
+			b.Tell(ctx, a.LocalAddrs()[0], p2p.IOVec{[]byte("pending")})
+		}
+		cf()
+		time.Sleep(10 * time.Millisecond)
+		lg.add(sx.L(sx.S("cb")))
+		closed := make(chan struct{})
+		go func() { a.Close(); close(closed) }()
+		select {
+		case <-closed:
+		case <-time.After(8 * time.Second):
+			lg.add(sx.L(sx.S("stuck-close"), sx.I(0)))
+		}
+		lg.add(sx.L(sx.S("ce")))
+		go b.Close()
+		lg.mu.Lock()
+		evs := append([]sx.V{}, lg.evs...)
+		lg.mu.Unlock()
+		c.emit(sx.L(sx.S("hub"), sx.S("close-with-pending-delivery"), sx.I(1), sx.I(1), sx.I(c.n)), sx.L(evs...))
+		c.count("close/pending-delivery")
+	}
 }
